@@ -10,6 +10,20 @@ NOTE = ("Trusted base: the frozen effect / identity tables in kdverif (one reaso
         "The check decides the listed structural clauses on every path of the current source - it does not decide "
         "the value-level behaviour of the property (see DESIGN.md section 4, 'N' lists).")
 
+ALSO = {
+    "C01": "no loader closure created in the constructor's loops reads a loop-bound variable as a free variable (late binding).",
+    "C02": "__getattr__ of every dataset layer stores nothing on self (no instance-dict memo), so a delegated attribute cannot go "
+           "stale after the wrapped dataset changes.",
+    "C03": "no constructor parameter is re-bound from its own previous value inside a loop (a request is not narrowed cumulatively "
+           "across classes / rounds); the bulk readers getall* / class-count helpers store nothing on the dataset they read.",
+    "C04": "_training_loop writes no attribute of the sampler inside its loops: iteration progress is local and cannot leak from an "
+           "abandoned iteration into the next.",
+    "C06": "every random draw in __iter__ of a package sampler uses a generator created or re-seeded inside that call (the j-th pass "
+           "of an object equals the first pass of a fresh object).",
+    "C07": "torch draws with generator=self.<attr> count as uncontrolled when set_rng does not overwrite that attribute (a lazily "
+           "derived generator is never invalidated by a re-injection).",
+}
+
 CLAIMS = {
     "C17": ("dominance / guard rules on the mask-writing paths, polynomial block bounds, dependence of block sizes on the step-seeded generator",
             "Decides: KDDinoMaskCollator generates masks only for masks[i], i < int(batch_size * num_views * mask_prob), out of "
@@ -198,6 +212,8 @@ def main():
         if pid not in CLAIMS:
             continue
         tech, text = CLAIMS[pid]
+        if pid in ALSO:
+            text = text + " Also decided (added with the second round of independent changes): " + ALSO[pid]
         checks.append({
             "property_id": pid,
             "quick_cmd": f"./check {pid} quick",
